@@ -10,7 +10,13 @@ the error must name the failing entry, and afterwards a value change still produ
 core.events.Handler) and core.main.update() still polls.
 Model side: QtVerif.Model.Backup.putPorts via Driver/C20.lean on the abstracted document (which entries are acceptable):
 same outcome (ok / error naming the same entry), same set of ports afterwards, switches on.
-GET/PUT /peripherals is not covered (stated in the manifest note).
+GET/PUT /peripherals: the hub has one static peripheral (settings.peripherals) and, per case, non-static ones added through
+POST /peripherals (drivers of harness/periph_c20.py: named / unnamed with an explicit id / unnamed with neither -> auto id;
+with and without parameters; boards carry ports whose attributes are edited). The backup includes GET /peripherals, the
+restore PUT /peripherals (before PUT /ports: the ports of the peripherals must exist when their attributes are applied).
+Oracle: GET /peripherals after == the backup document (list equality), the peripheral ports are exactly those of the
+document's entries, a corrupted document (unknown driver / missing parameter / duplicate id / duplicate name in the k-th
+entry) is refused naming the entry, polling and events work afterwards. Model: Peripherals.putPeripherals via the driver.
 """
 import asyncio
 import copy
@@ -30,6 +36,31 @@ WRITABLE_STATIC = {'lp1': 'number', 'lp3': 'boolean', 'lp4': 'number'}
 VPORT_LIMIT = 6           # settings.core.virtual_ports of the hub under test: low, so that restores run near the limit
 SLAVE_PREFIX_IDS = ['v1', 'slv1_light', 'slv12.fan', 'slv1x']     # ids having a slave's name as a proper prefix
 OTHER_IDS = ['w1', 'w2', 'w3']
+STATIC_PERIPHERAL = {'driver': 'harness.periph_c20.Beacon', 'name': 'fixed'}      # settings.peripherals of the hub under test
+BOARD, BEACON = 'harness.periph_c20.Board', 'harness.periph_c20.Beacon'
+P_NAMES = ['boiler', 'pump', 'shed', 'garden']
+P_IDS = ['attic_board', 'cellar.io', 'b-7']
+
+
+def pports(entry):
+    """ids of the ports that an entry of a peripherals document (drivers of harness/periph_c20.py) stands for"""
+    if entry.get('driver') != BOARD or not isinstance(entry.get('address'), int):
+        return []
+    pre = (entry['name'] + '.') if entry.get('name') else ''
+    return [f'{pre}relay_{entry["address"]:02x}_{i}' for i in range(int(entry.get('channels', 1)))]
+
+
+def perr(e):
+    """outcome of a refused PUT /peripherals: API error (status, code, entry named) or a bare exception"""
+    from qtoggleserver.core import api as core_api
+    name = type(e).__name__
+    if isinstance(e, core_api.APIError):
+        code = e.code
+        kind = 'nodrv' if code == 'no-such-driver' else 'dup' if code == 'duplicate-peripheral' else 'ctor'
+        return {'how': 'api', 'status': e.status, 'code': code, 'kind': kind, 'index': e.params.get('index'),
+                'named': e.params.get('id') or e.params.get('name')}
+    kind = 'nodrv' if name == 'NoSuchDriver' else 'dup' if name == 'DuplicatePeripheral' else 'ctor'
+    return {'how': 'exc', 'exc': name, 'kind': kind, 'index': None, 'named': None}
 
 
 class C20(Prop):
@@ -76,6 +107,9 @@ class C20(Prop):
         settings.slaves.enabled = True
         settings.frontend.enabled = False
         settings.core.virtual_ports = VPORT_LIMIT
+        settings.peripherals = [dict(STATIC_PERIPHERAL)]
+        from harness import periph_c20
+        self.pc = periph_c20
         for f in ('init_loop', 'init_system', 'init_persist', 'init_peripherals', 'init_events', 'init_sessions',
                   'init_history', 'init_device', 'init_webhooks', 'init_reverse', 'init_ports', 'init_slaves', 'init_main'):
             await getattr(startup, f)()
@@ -134,6 +168,28 @@ class C20(Prop):
             {'canon': [], 'xf': [], 'corrupt': ['none', 0],
              'A': [['add', {'id': f'v{i}', 'type': 'number'}] for i in (1, 2, 3)],
              'B': [['add', {'id': f'w{i}', 'type': 'boolean'}] for i in (1, 2, 3)]},
+            # peripherals: named / explicit id / auto id; the target lost two and has another one. The corrupted document
+            # (unknown driver in a later entry) is the witness of the known finding (bare exception, entry not named)
+            {'canon': [], 'xf': [], 'corrupt': ['none', 0], 'A': [], 'B': [], 'corrupt_periph': ['nodrv', 2],
+             'assert_periph_reject': True,
+             'PA': [['padd', {'driver': BOARD, 'name': 'boiler', 'address': 0x20}],
+                    ['padd', {'driver': BOARD, 'id': 'attic_board', 'address': 0x21}],
+                    ['padd', {'driver': BOARD, 'address': 0x22}]],
+             'PPA': [['patch', 'boiler.relay_20_0', {'enabled': True, 'tag': 'heat', 'hold': 3}], ['val', 'boiler.relay_20_0', True],
+                     ['patch', 'relay_22_0', {'display_name': 'Attic', 'hold': 1}]],
+             'PB': [['pdel#', 2], ['pdel#', 1], ['padd', {'driver': BOARD, 'name': 'garden', 'address': 0x30}]],
+             'PPB': [['patch', 'boiler.relay_20_0', {'enabled': False, 'tag': 'b', 'hold': 0, 'persisted': True}]]},
+            # the target re-uses a name and an explicit id for other boards; parameterless peripherals; name and id both given
+            {'canon': [], 'xf': [], 'corrupt': ['type', 2], 'A': [], 'B': [], 'corrupt_periph': ['dupid', 4],
+             'PA': [['padd', {'driver': BOARD, 'name': 'pump', 'id': 'other_id', 'address': 0x23, 'channels': 2,
+                              'opts': {'b': 1, 'a': {'z': [1, 2], 'y': None}}}],
+                    ['padd', {'driver': BEACON}], ['padd', {'driver': BEACON, 'id': 'b-7', 'name': None}],
+                    ['padd', {'driver': BOARD, 'id': 'cellar.io', 'address': 0x24, 'label': 'x'}]],
+             'PPA': [['patch', 'pump.relay_23_1', {'enabled': True, 'hold': 5}], ['val', 'pump.relay_23_1', True],
+                     ['patch', 'relay_24_0', {'enabled': True, 'tag': 'c'}]],
+             'PB': [['pdel#', 3], ['pdel#', 0], ['padd', {'driver': BOARD, 'name': 'pump', 'address': 0x31}],
+                    ['padd', {'driver': BOARD, 'id': 'cellar.io', 'address': 0x32}]],
+             'PPB': [['patch', 'pump.relay_31_0', {'enabled': True, 'tag': 'other'}], ['val', 'pump.relay_31_0', True]]},
         ]
 
     def gen(self, rng, tier):
@@ -202,13 +258,100 @@ class C20(Prop):
             vals = [True, False] if WRITABLE_STATIC[pid] == 'boolean' else [3, 9]
             B += [['patch', pid, {'enabled': True, 'expression': ''}],
                   ['seq', pid, {'values': vals, 'delays': [400, 400], 'repeat': 0}]]
-        return {'canon': canon, 'xf': full['xf'], 'A': A, 'B': B,
+        per = self._gen_periph(rng) if rng.random() < 0.7 else {}
+        return {'canon': canon, 'xf': full['xf'], 'A': A, 'B': B, **per,
+                'corrupt_periph': [rng.choice(['nodrv', 'ctor', 'addr', 'dupid', 'dupname', 'none']), rng.randrange(12)],
                 'corrupt': [rng.choice(['type', 'expr', 'def', 'none']), rng.randrange(6)],
                 'corrupt_devices': [rng.choice(['nohost', 'noport', 'noscheme', 'porttype', 'scheme', 'pathtype', 'none']),
                                     rng.randrange(4)],
                 'corrupt_device': rng.choice(['type', 'name', 'none'])}
 
+    def _gen_periph(self, rng):
+        """non-static peripherals of the source (POSTed in this order) and what the target does to them"""
+        addrs = rng.sample(range(0x20, 0x40), 8)
+        names, ids = rng.sample(P_NAMES, len(P_NAMES)), rng.sample(P_IDS, len(P_IDS))
+
+        def entry(kinds):
+            kind = rng.choice(kinds)
+            e = {'driver': BOARD if rng.random() < 0.75 else BEACON}
+            if kind == 'named':
+                e['name'] = names.pop()
+                if rng.random() < 0.3:
+                    e['id'] = rng.choice(['other_id', e['name']])       # the name wins
+            elif kind == 'id':
+                e['id'] = ids.pop()
+                if rng.random() < 0.3:
+                    e['name'] = None
+            if e['driver'] == BOARD:
+                e['address'] = addrs.pop()
+                if rng.random() < 0.4:
+                    e['channels'] = 2
+                if rng.random() < 0.3:
+                    e['label'] = rng.choice(['', 'x', 'é "q"'])
+                if rng.random() < 0.3:
+                    e['opts'] = {'b': rng.randint(0, 3), 'a': {'z': [1, 2], 'y': None}}
+            return e
+
+        def port_ops(e, other):
+            ops = []
+            for pid in pports(e):
+                if rng.random() < 0.7:
+                    a = {'enabled': rng.random() < 0.7, 'tag': rng.choice(['', 'r', 't2']), 'hold': rng.randint(0, 5),
+                         'display_name': rng.choice(['', 'Relay', 'ü'])}
+                    if other:
+                        a['persisted'] = True
+                    ops.append(['patch', pid, a])
+                    if a['enabled'] and rng.random() < 0.7:
+                        ops.append(['val', pid, rng.random() < 0.6])
+            return ops
+        src, PA, PPA, PB, PPB = [], [], [], [], []
+        auto_beacon = False
+        for _ in range(rng.choice([1, 2, 2, 3, 3, 4])):
+            kinds = (['named'] if len(names) > 1 else []) + (['id'] if len(ids) > 1 else []) + ['auto']
+            e = entry(kinds)
+            if e['driver'] == BEACON and 'name' not in e and 'id' not in e:
+                if auto_beacon:
+                    continue                    # a second parameterless unnamed beacon has the same auto id
+                auto_beacon = True
+            src.append(e)
+            PA.append(['padd', e])
+            PPA += port_ops(e, False)
+        # the target: some of the source's peripherals deleted, their ports edited, others added (also re-using a name or
+        # the parameters of a deleted one)
+        gone = set()
+        for i in range(len(src)):
+            if rng.random() < 0.45:
+                PB.append(['pdel#', i])
+                gone.add(i)
+        # pdel# indexes the source document: delete from the back so that the positions stay valid
+        PB.sort(key=lambda op: -op[1])
+        for i, e in enumerate(src):
+            if i not in gone and rng.random() < 0.6:
+                PPB += port_ops(e, True)
+        for _ in range(rng.choice([0, 1, 1, 2])):
+            r = rng.random()
+            if gone and r < 0.35:
+                old = src[rng.choice(sorted(gone))]
+                e = dict(old)
+                if e['driver'] == BOARD and rng.random() < 0.6:
+                    e['address'] = addrs.pop()          # same name/id, another board
+                elif 'name' in e or 'id' in e:
+                    continue
+            else:
+                e = entry((['named'] if names else []) + ['auto'])
+                if e['driver'] == BEACON and 'name' not in e and auto_beacon:
+                    continue
+            PB.append(['padd', e])
+            PPB += port_ops(e, True)
+        return {'PA': PA, 'PPA': PPA, 'PB': PB, 'PPB': PPB}
+
     def shrink_candidates(self, case):
+        for key in ('PPB', 'PB', 'PPA'):
+            if case.get(key):
+                yield dict(case, **{key: []})
+        if case.get('PA'):
+            for i in range(len(case['PA'])):
+                yield dict(case, PA=case['PA'][:i] + case['PA'][i + 1:], PB=[], PPB=[])
         for key in ('B', 'A'):
             ops = case[key]
             n = len(ops)
@@ -222,8 +365,10 @@ class C20(Prop):
     async def _reset(self):
         from qtoggleserver.core.api.funcs import ports as f_ports
         from qtoggleserver.slaves.api.funcs import devices as f_devices
+        from qtoggleserver.peripherals.api import funcs as f_periph
         h = self.b.FakeHandler(method='PUT')
         await f_devices.put_slave_devices(h, [])
+        await f_periph.put_peripherals(h, [])
         await f_ports.put_ports(h, [])
         for pid in ('lp1', 'lp2', 'lp3', 'lp4'):
             a = {'display_name': '', 'tag': '', 'enabled': False, 'persisted': False, 'internal': False, 'gain': 1,
@@ -236,6 +381,44 @@ class C20(Prop):
         await self.b._run_op(['dev', {'name': 'hub0', 'display_name': '', 'admin_password': '', 'normal_password': '',
                                       'viewonly_password': ''}])
         await self.b._settle(2)
+
+    async def _get_periph(self):
+        from qtoggleserver.peripherals.api import funcs as f_periph
+        return json.loads(json.dumps(await f_periph.get_peripherals(self.b.FakeHandler())))
+
+    async def _run_pops(self, ops, ref):
+        """peripheral operations: ['padd', entry] = POST /peripherals, ['pdel', id] = DELETE, ['pdel#', i] = DELETE of the
+        i-th non-static entry of the document `ref` (auto ids are not known when the case is generated)"""
+        from qtoggleserver.peripherals.api import funcs as f_periph
+        res = []
+        for op in ops:
+            try:
+                if op[0] == 'padd':
+                    await f_periph.post_peripherals(self.b.FakeHandler(method='POST'), copy.deepcopy(op[1]))
+                elif op[0] in ('pdel', 'pdel#'):
+                    pid = op[1]
+                    if op[0] == 'pdel#':
+                        dyn = [e for e in ref if not e.get('static')]
+                        if not dyn:
+                            res.append('skip')
+                            continue
+                        pid = dyn[op[1] % len(dyn)]['id']
+                    await f_periph.delete_peripheral(self.b.FakeHandler(method='DELETE'), pid)
+                else:
+                    res.append('bad-op')
+                    continue
+                res.append('ok')
+            except Exception as e:
+                res.append(self.b._err(e))
+        return res
+
+    async def _pdump(self):
+        d = await self.b._dump()
+        d['peripherals'] = await self._get_periph()
+        return d
+
+    def _pport_ids(self, dump):
+        return sorted(p['id'] for p in dump['ports'] if not p.get('virtual') and p['id'] not in ('lp1', 'lp2', 'lp3', 'lp4'))
 
     def _canon(self, docs, vals, xf_ok):
         ports = {}
@@ -262,7 +445,18 @@ class C20(Prop):
         res = []
         self.put_err_id = None
         self.full_update = None
-        for fn, key in ((f_device.put_device, 'device'), (f_devices.put_slave_devices, 'devices'), (f_ports.put_ports, 'ports')):
+        from qtoggleserver.peripherals.api import funcs as f_periph
+        self.pput_res = None
+        for fn, key in ((f_device.put_device, 'device'), (f_periph.put_peripherals, 'peripherals'),
+                        (f_devices.put_slave_devices, 'devices'), (f_ports.put_ports, 'ports')):
+            if key == 'peripherals':
+                # order 15 among the backup endpoints: before the ports, whose attributes need the peripherals' ports
+                try:
+                    await fn(h, copy.deepcopy(docs[key]))
+                    self.pput_res = 'ok'
+                except Exception as e:
+                    self.pput_res = self.b._err(e)
+                continue
             for _ in range(6):                 # let the events of the previous call reach the handler
                 await asyncio.sleep(0)
             self.events.clear()
@@ -287,25 +481,28 @@ class C20(Prop):
         from qtoggleserver.core.api.funcs import ports as f_ports
         out = {}
         await self._reset()
-        out['resA'] = [await self.b._run_op(op) for op in case['A']]
+        out['resPA'] = await self._run_pops(case.get('PA', []), [])
+        out['resA'] = [await self.b._run_op(op) for op in case['A'] + case.get('PPA', [])]
         await self.b._settle(4)
-        out['a'] = await self.b._dump()
+        out['a'] = await self._pdump()
         out['a_hashes'] = self.b._hashes()
-        out['resB'] = [await self.b._run_op(op) for op in case['B']]
+        out['resPB'] = await self._run_pops(case.get('PB', []), out['a']['peripherals'])
+        out['resB'] = [await self.b._run_op(op) for op in case['B'] + case.get('PPB', [])]
         await self.b._settle(4)
-        out['b'] = await self.b._dump()
+        out['b'] = await self._pdump()
         out['b_hashes'] = self.b._hashes()
         out['b_vals'] = self.b._vals()
         for d in (out['a'], out['b']):
             for s in d.get('devices', []):
                 s.pop('webhooks', None)          # added by the harness dump, not part of GET /devices
         out['put'] = await self._put_all(out['a'])
-        out['put_err_id'], out['full_update'] = self.put_err_id, self.full_update
-        out['c'] = await self.b._dump()
+        out['put_err_id'], out['full_update'], out['pput'] = self.put_err_id, self.full_update, self.pput_res
+        out['c'] = await self._pdump()
         out['c_vals'] = self.b._vals()
         # a second restore of the same backup on the (now equal) hub must be accepted and change nothing
         out['put2'] = await self._put_all(out['a'])
-        out['c2'] = await self.b._dump()
+        out['pput2'] = self.pput_res
+        out['c2'] = await self._pdump()
         for d in (out['c'], out['c2']):
             for s in d.get('devices', []):
                 s.pop('webhooks', None)
@@ -387,6 +584,45 @@ class C20(Prop):
         after_dev = {k2: v for k2, v in (await self.b._dump())['device'].items() if k2 not in VOLATILE_DEVICE}
         out['dbad_unchanged'] = before_dev == after_dev
         out['d_polled'], out['d_event'] = await self._probe()
+        # ---- corrupted PUT /peripherals: the k-th entry cannot be added; the error must name it; switches on afterwards
+        from qtoggleserver.peripherals.api import funcs as f_periph
+        kind, k = case.get('corrupt_periph', ['none', 0])
+        pbad = copy.deepcopy(out['a']['peripherals'])
+        extra = [{'driver': BEACON, 'name': 'extra1', 'id': 'extra1', 'static': False},
+                 {'driver': BOARD, 'id': 'extra2', 'name': None, 'address': 0x50, 'static': False}]
+        while len([e for e in pbad if not e.get('static')]) < 2:
+            pbad.append(extra.pop(0))
+        dyn = [i for i, e in enumerate(pbad) if not e.get('static')]
+        out['pbad_index'] = None
+        out['pbefore'] = await self._get_periph()
+        if kind != 'none':
+            i = dyn[k % len(dyn)] if kind in ('nodrv', 'ctor', 'addr') else dyn[1 + k % (len(dyn) - 1)]
+            out['pbad_index'] = i
+            e = pbad[i]
+            if kind == 'nodrv':
+                e['driver'] = 'harness.periph_c20.Missing'
+            elif kind == 'ctor':                 # a required constructor argument is missing
+                e['driver'] = BOARD
+                e.pop('address', None)
+            elif kind == 'addr':                 # the driver itself refuses the value
+                e['driver'] = BOARD
+                e['address'] = 'x21'
+            else:
+                j = dyn[(k // 3) % dyn.index(i)]       # an earlier non-static entry
+                if kind == 'dupname':
+                    e['name'] = pbad[j]['id']
+                else:
+                    e['name'], e['id'] = None, pbad[j]['id']
+        out['pbad_doc'] = copy.deepcopy(pbad)
+        try:
+            await f_periph.put_peripherals(self.b.FakeHandler(method='PUT'), copy.deepcopy(pbad))
+            out['pbad_res'] = {'how': 'ok'}
+        except Exception as e:
+            out['pbad_res'] = perr(e)
+        await self.b._settle(2)
+        out['pbad_left'] = await self._get_periph()
+        out['pbad_ports'] = self._pport_ids(await self.b._dump())
+        out['p_polled'], out['p_event'] = await self._probe()
         return out
 
     async def _probe(self):
@@ -432,6 +668,31 @@ class C20(Prop):
         if fail is None and out['full_update'] is False:
             fail = Failure('property', 'an accepted PUT /ports was not followed by a full-update event to the registered '
                            'event handlers (event delivery still off when it was triggered?)')
+        # ---- peripherals: GET /peripherals after the restore == the backup document; ports exactly those of its entries
+        pa, pb, pc, pc2 = (out[x]['peripherals'] for x in ('a', 'b', 'c', 'c2'))
+        dyn_a = [e for e in pa if not e.get('static')]
+        if fail is None and out['pput'] != 'ok':
+            fail = Failure('property', f'PUT /peripherals refused the hub\'s own GET /peripherals document: {out["pput"]}',
+                           real=out['pput'])
+        if fail is None and pc != pa:
+            fail = Failure('property', 'GET /peripherals after the restore differs from the backup: ids '
+                           f'{[e.get("id") for e in pa]} -> {[e.get("id") for e in pc]}; '
+                           + c07mod.C07._first_diff({'peripherals': pa}, {'peripherals': pc}), real={'backup': pa, 'after': pc})
+        want_pp = sorted(i for e in pa for i in pports(e))
+        if fail is None and self._pport_ids(out['c']) != want_pp:
+            fail = Failure('property', f'ports of the peripherals after the restore: {self._pport_ids(out["c"])}, the backup\'s '
+                           f'peripherals have {want_pp}', real=self._pport_ids(out['c']))
+        if fail is None and (out['pput2'] != 'ok' or pc2 != pa or self._pport_ids(out['c2']) != want_pp):
+            fail = Failure('property', f'second restore of the same peripherals backup: {out["pput2"]}, ids '
+                           f'{[e.get("id") for e in pc2]}, ports {self._pport_ids(out["c2"])}', real={'backup': pa, 'after': pc2})
+        if dyn_a:
+            for e in dyn_a:
+                tags.add('periph:named' if e.get('name') else 'periph:auto-id' if e['id'].startswith('peripheral_')
+                         else 'periph:explicit-id')
+            if [e.get('id') for e in pa] != [e.get('id') for e in pb]:
+                tags.add('periph:target-differs')
+            if any(p['id'] in want_pp and (p.get('tag') or p.get('hold') or p.get('enabled')) for p in out['a']['ports']):
+                tags.add('periph:port-attrs')
         # passwords are not part of a backup
         for d in (src, after):
             for k in ('admin_password', 'normal_password', 'viewonly_password'):
@@ -491,6 +752,33 @@ class C20(Prop):
         if fail is None and not (out['d_polled'] and out['d_event']):
             fail = Failure('property', f'after PUT /device ({dres}): polling works={out["d_polled"]}, value-change event '
                            f'delivered={out["d_event"]}')
+        # ---- rejected PUT /peripherals
+        pres = out['pbad_res']
+        pk = case.get('corrupt_periph', ['none', 0])[0]
+        known_periph = None
+        if out['pbad_index'] is not None:
+            tags.add('corrupt-periph:' + pk)
+            i = out['pbad_index']
+            ent = out['pbad_doc'][i]
+            if fail is None and pres['how'] == 'ok':
+                fail = Failure('property', f'PUT /peripherals: entry #{i} ({pk}) cannot be added but the document was accepted')
+            elif fail is None and pres['how'] == 'api':
+                names = pres['index'] == i or (pres['named'] is not None and pres['named'] in (ent.get('id'), ent.get('name')))
+                if not (400 <= pres['status'] < 500) or not names:
+                    fail = Failure('property', f'PUT /peripherals: entry #{i} ({pk}) is the failing one; the error is '
+                                   f'{pres["status"]} {pres["code"]} naming index={pres["index"]!r} id/name={pres["named"]!r}')
+            elif pres['how'] == 'exc':
+                # the unrepaired hub lets the registry's exception through (known finding, asserted by one corpus case only)
+                tags.add('periph-reject-bare-exception')
+                known_periph = Failure('property', f'PUT /peripherals: the failing entry is not named: entry #{i} ({pk}) raises a bare '
+                                       f'{pres["exc"]} (no API error, no entry named); peripherals left registered: '
+                                       f'{[e.get("id") for e in out["pbad_left"]]}, their ports present: {out["pbad_ports"]}',
+                                       real=pres)
+        elif fail is None and (pres['how'] != 'ok' or out['pbad_left'] != out['pbad_doc']):
+            fail = Failure('property', f'PUT /peripherals: a valid document was rejected or not reproduced: {pres}')
+        if fail is None and not (out['p_polled'] and out['p_event']):
+            fail = Failure('property', f'after the {"rejected" if out["pbad_index"] is not None else "accepted"} PUT /peripherals: '
+                           f'polling works={out["p_polled"]}, value-change event delivered={out["p_event"]}')
         # ---- model: restore of the non-virtual writable ports (enabled flag applied before the value is decided)
         if fail is None:
             enc = c07mod.encp
@@ -553,7 +841,7 @@ class C20(Prop):
         # ---- model: same outcome, same ports, switches on
         if fail is None:
             driver.ask('begin')
-            for pid in ('lp1', 'lp2', 'lp3', 'lp4'):
+            for pid in sorted(p['id'] for p in out['c2']['ports'] if not p.get('virtual')):
                 driver.ask(f'static {pid}')
             for pid in sorted(after['ports']):
                 if after['ports'][pid].get('virtual'):
@@ -580,6 +868,10 @@ class C20(Prop):
             elif mports != out['d_ids']:
                 fail = Failure('correspondence', f'ports present after the corrupted PUT: hub {out["d_ids"]}, model {mports}',
                                real=out['d_ids'], model=mports)
+        if fail is None:
+            fail = self._model_periph(out, driver, pk)
+        if fail is None and known_periph is not None and case.get('assert_periph_reject'):
+            fail = known_periph
         differ_ports = set(src['ports']) != set(tgt['ports'])
         differ_attrs = any(src['ports'].get(i) != tgt['ports'].get(i) for i in src['ports'] if i in tgt['ports'])
         has_expr = any(p.get('expression') for p in src['ports'].values())
@@ -593,7 +885,71 @@ class C20(Prop):
         return fail, {'tags': sorted(tags), 'key': key, 'observed': {'ports': sorted(src['ports']), 'put': out['put'],
                                                                       'bad': out['bad_res']}}
 
+    # ------------------------------------------------------------------ peripherals: model vs hub
+    def _model_periph(self, out, driver, pk):
+        ptab = {}
+
+        def pent(e, drv=True, ctor=True):
+            body = {k: v for k, v in e.items() if k not in ('id', 'name', 'static')}
+            n = ptab.setdefault(json.dumps(body, sort_keys=True), len(ptab))
+            fld = lambda k: '~' if k not in e else '-' if e[k] is None else str(e[k])      # absent / null / string
+            return (f'{fld("name")}/{fld("id")}/{"v" if drv else "x"}/{n}/{"s" if e.get("static") else "d"}/'
+                    f'{"v" if ctor else "x"}')
+
+        def reg(doc, port_ids):
+            r = []
+            for e in doc:
+                body = {k: v for k, v in e.items() if k not in ('id', 'name', 'static')}
+                n = ptab.setdefault(json.dumps(body, sort_keys=True), len(ptab))
+                pp = pports(e)
+                has = '?' if not pp else 'p' if all(i in port_ids for i in pp) else 'n'
+                r.append(f'{e["id"]}:{"s" if e.get("static") else "d"}:{e.get("name") or "-"}:{n}:{has}')
+            return r
+
+        def same(model_reg, real_reg):
+            if len(model_reg) != len(real_reg):
+                return False
+            for m, r in zip(model_reg, real_reg):
+                if r.endswith('?'):
+                    m, r = m[:-1], r[:-1]
+                if m != r:
+                    return False
+            return True
+
+        def ask(target, doc, flags=None):
+            driver.ask('pbegin')
+            driver.ask('ptarget ' + ' '.join(pent(e) for e in target) if target else 'ptarget')
+            rep = driver.ask('pput ' + ' '.join(pent(e, *(flags or {}).get(i, ())) for i, e in enumerate(doc)) if doc else 'pput')
+            head, _, regs = rep.partition(' reg=')
+            return rep, head, [x for x in regs.split(',') if x]
+        # the restore: PUT(GET source) on the target
+        rep, head, mreg = ask(out['b']['peripherals'], out['a']['peripherals'])
+        real = reg(out['c']['peripherals'], set(self._pport_ids(out['c'])))
+        if head != 'ok' or not same(mreg, real):
+            return Failure('correspondence', f'PUT /peripherals of the backup: hub {out["pput"]} registry {real}, model {rep}',
+                           real=real, model=rep)
+        # the corrupted document
+        i = out['pbad_index']
+        flags = {}
+        if i is not None:
+            flags[i] = (pk != 'nodrv', pk not in ('ctor', 'addr'))
+        rep, head, mreg = ask(out['pbefore'], out['pbad_doc'], flags)
+        real = reg(out['pbad_left'], set(out['pbad_ports']))
+        pres = out['pbad_res']
+        rhead = 'ok' if pres['how'] == 'ok' else f'err {i} {pres["kind"]}'
+        # which entry failed is the harness's ground truth (the entry it corrupted); the kind comes from the hub's error
+        if head != rhead or not same(mreg, real):
+            # a repaired hub may clean up after a failing entry; then only the head is comparable
+            if head == rhead and pres['how'] == 'api':
+                return None
+            return Failure('correspondence', f'PUT /peripherals of the corrupted document: hub {rhead} registry {real}, model {rep}',
+                           real=[rhead, real], model=rep)
+        return None
+
     def known_match(self, finding, case, failure):
+        if finding.get('id') == 'C20-put-peripherals-failing-entry-unnamed':
+            return bool(case.get('assert_periph_reject')) and failure.kind == 'property' and \
+                'PUT /peripherals: the failing entry is not named' in failure.detail
         return False
 
 
